@@ -174,6 +174,15 @@ impl RADAU {
         // hmax and hmin
         let hmax = self.max_step.unwrap_or_else(|| (xend - x).abs());
         let hmin = self.min_step.unwrap_or(0.0);
+        if hmin > hmax {
+            // (clamp(hmin, hmax) below would panic)
+            return Err(Error::Config(ConfigError::OutOfRange {
+                parameter: "min_step",
+                value: hmin,
+                min: 0.0,
+                max: hmax,
+            }));
+        }
 
         // Max newton iterations
         let max_newton = self.newton_maxiter;
